@@ -75,3 +75,31 @@ func (e *baseFibStrategyEntry) snapshot() *baseFibStrategyEntry {
 		strategy:  e.strategy,
 	}
 }
+
+// fibBatch is implemented by FIB-strategy tables that can apply several
+// nexthop updates atomically with respect to lookups. The RIB uses it so that
+// forwarding threads never observe a half-recomputed set of FIB entries.
+type fibBatch interface {
+	// batchUpdate runs fn while holding the table's write lock.
+	// fn must only use the fibBatchOps it is given.
+	batchUpdate(fn func(ops fibBatchOps))
+}
+
+// fibBatchOps are the nexthop updates available inside a batch (no locking).
+type fibBatchOps interface {
+	clearNextHops(name enc.Name)
+	insertNextHop(name enc.Name, nexthop uint64, cost uint64)
+}
+
+// fibUnbatched adapts a FibStrategy without batch support.
+type fibUnbatched struct {
+	fib FibStrategy
+}
+
+func (u fibUnbatched) clearNextHops(name enc.Name) {
+	u.fib.ClearNextHopsEnc(name)
+}
+
+func (u fibUnbatched) insertNextHop(name enc.Name, nexthop uint64, cost uint64) {
+	u.fib.InsertNextHopEnc(name, nexthop, cost)
+}
